@@ -589,13 +589,14 @@ def gen_population(rng, max_agents=7):
         if desc.get("overlap0") is not None:
             desc["overlap0"] = [[e + shift, [x + shift for x in s_]] for e, s_ in desc["overlap0"]]
     encs = sorted({a["enc"] for a in desc["agents"]})
+    gridw.maybe_late(rng, desc, 0.08)
     if len(encs) > 1 and rng.random() < 0.15:
         # a history: encodings re-assigned through the public setter after the components were built
         enc0 = [a["enc"] for a in desc["agents"]]
         rng.shuffle(enc0)
         if enc0 != [a["enc"] for a in desc["agents"]]:
             desc["enc0"] = enc0
-    amap = gen_amap(rng, n)
+    amap = gen_amap(rng, n - int(desc.get("late") or 0))    # a mapping names agents that exist at construction
     emap = gen_emap(rng, encs)
     stale = False
     for a, t in amap:
@@ -877,13 +878,13 @@ class DoneProp(core.Prop):
         for i in range(npop):
             world, amap, emap, stale = gen_population(rng)
             try:
-                rw = gridw.RealWorld({k: v for k, v in world.items() if k != "enc0"})
+                rw = gridw.RealWorld({k: v for k, v in world.items() if k not in ("enc0", "late")})
             except ValueError:
                 continue
-            if world.get("enc0"):
+            if world.get("enc0") or world.get("late"):
                 rw = None           # every component gets the history of its own (built before the re-assignment)
             n = len(world["agents"])
-            amap2 = gen_amap(rng, n) if rng.random() < 0.5 else []
+            amap2 = gen_amap(rng, n - int(world.get("late") or 0)) if rng.random() < 0.5 else []
             extra = ["stale-pos"] if stale else []
             if world.get("state") and rng.random() < 0.5:
                 world = dict(world, earlier=make_earlier_alive(rng, world))
@@ -914,6 +915,8 @@ class DoneProp(core.Prop):
                 yield dict(desc, world={k: v for k, v in world.items() if k != "earlier"})
             if world.get("enc0") is not None:
                 yield dict(desc, world={k: v for k, v in world.items() if k != "enc0"})
+            if world.get("late"):
+                yield dict(desc, world={k: v for k, v in world.items() if k != "late"})
             for i in range(n - 1, -1, -1):           # drop an agent no mapping item mentions
                 if n > 1 and all(i not in (a, t) for a, t in amap):
                     w2 = copy.deepcopy(world)
@@ -921,6 +924,7 @@ class DoneProp(core.Prop):
                     if w2.get("earlier") is not None:
                         del w2["earlier"][i]
                     w2.pop("enc0", None)             # (a permutation of the encodings: void once an agent is gone)
+                    w2.pop("late", None)
                     ren = lambda x: x - 1 if x > i else x  # noqa: E731
                     yield dict(desc, world=w2, comp=dict(comp, amap=[[ren(a), ren(t)] for a, t in amap])
                                if "amap" in comp else comp)
